@@ -95,7 +95,7 @@ def fact_heartbeat_iteration(repo):
 
 CFG = {
     "manifest": {
-        "text": "Proof: Lean theorems (Props/C04.lean) over transition-system models of both event pools (one op per atomic operation, Cond.Wait split into enqueue-and-unlock / re-lock) and of stream.go + streamer.go (one op per trace point). Pools: lowmem_waiter_resumes (repaired heartbeat notifies every parked reader when inUse < capacity, every reachable state; the unchanged heartbeat is refuted by lowmem_heartbeat_counterexample / lowmem_unfixed_wedged_forever from the lost-wake-up state), lowmem_woken_gets, std_waiter_resumes, std_woken_takes. Streams: charged_exact, single_owner, detach_only_when_caught_up, no_sleeping_proc_with_work, charge_signals, no_blocked_owner_with_work, blocked_gets_timeout, stream_never_panics. Tie: gated sequential schedules on the real pools (gate between availability check and Cond.Wait, shortened and switched-off heartbeat) and on the real streamer (gate between pop and attach), replayed op by op through the models on every run. Processor side (Props/C04Proc.lean, model M3 of processor.go shared with C02): timeout_flushes_held_event — in a chain with one holding action a time-out event is delivered to the busy holder whatever action handled the previous event, the held event is re-injected and leaves the processor, and processEvent returns with nothing busy (the repaired timeoutAction); M3 is tied to the code by predicting the processor-side operations of every c04.run trace.",
+        "text": "Proof: Lean theorems (Props/C04.lean) over transition-system models of both event pools (one op per atomic operation, Cond.Wait split into enqueue-and-unlock / re-lock) and of stream.go + streamer.go (one op per trace point). Pools: lowmem_waiter_resumes (repaired heartbeat notifies every parked reader when inUse < capacity, every reachable state; the unchanged heartbeat is refuted by lowmem_heartbeat_counterexample / lowmem_unfixed_wedged_forever from the lost-wake-up state), lowmem_woken_gets, std_waiter_resumes, std_woken_takes. Streams: charged_exact, single_owner, detach_only_when_caught_up, no_sleeping_proc_with_work, charge_signals, no_blocked_owner_with_work, blocked_gets_timeout, stream_never_panics. Tie: gated sequential schedules on the real pools (gate between availability check and Cond.Wait, shortened and switched-off heartbeat) and on the real streamer (gate between pop and attach), replayed op by op through the models on every run. Processor side (Props/C04Proc.lean, model M3 of processor.go shared with C02): timeout_flushes_held_event — in a chain with one holding action a time-out event is delivered to the busy holder whatever action handled the previous event, the held event is re-injected and leaves the processor, and processEvent returns with nothing busy (the repaired timeoutAction); timeout_releases_collapser — a collapse-only action (busy without holding an event) answers the time-out with a discard and its busy flag is reset, so the processor leaves the silent stream; a c04.run case ends idle only when every processor has left its stream; M3 is tied to the code by predicting the processor-side operations of every c04.run trace.",
         "note": "Liveness is bounded response in logical heartbeat ticks; scheduler fairness and real-time bounds are assumed. The batcher flush clause belongs to C08. Trusted: sync.Cond / sync.Mutex / atomic semantics as modelled.",
         "technique": "Lean 4 proof (inductive invariants over all op lists, bounded response) + gated trace replay against the real pools and streamer",
     },
